@@ -566,6 +566,8 @@ class Repo:
                 t = self._loop_var_types(expr.id, f, local_types)
                 if t:
                     return t
+            if getattr(self, 'no_role_hints', False):
+                return set()
             h = ROLE_HINTS.get(expr.id)
             return {h} if h and h in self.classes else set()
         if isinstance(expr, ast.Attribute):
@@ -574,7 +576,7 @@ class Repo:
                 if b in self.classes:
                     for c in self.classes[b].mro:
                         out |= self.attr_types.get((c.name, expr.attr), set())
-            if not out:
+            if not out and not getattr(self, 'no_role_hints', False):
                 h = ROLE_HINTS.get(expr.attr)
                 if h and h in self.classes and not self._assigns_attr(
                         self.expr_types(expr.value, f, local_types), expr.attr):
